@@ -52,7 +52,8 @@ theorem span_loop_no_nl : ∀ (a rest acc : Bytes), (10 : UInt8) ∉ a →
   | c :: a, rest, acc, h => by
     have hc : c ≠ 10 := fun e => h (by simp [e])
     have ha : (10 : UInt8) ∉ a := fun e => h (by simp [e])
-    simp [List.span.loop, hc, span_loop_no_nl a rest (c :: acc) ha]
+    have hc' : (c != 10) = true := by simpa using hc
+    simp [List.span.loop, hc', span_loop_no_nl a rest (c :: acc) ha]
 
 theorem span_no_nl (a rest : Bytes) (h : (10 : UInt8) ∉ a) :
     (a ++ 10 :: rest).span (· != 10) = (a, 10 :: rest) := by
@@ -102,8 +103,14 @@ theorem parseTree_formatTree (t : Tree) (hn : 0 ≤ t.n) (hm : t.n ≤ Decimal.i
   have hsplit : splitN 4 (formatTree ⟨n, hash⟩) =
       [[103, 111, 46, 115, 117, 109, 32, 100, 97, 116, 97, 98, 97, 115, 101, 32, 116, 114, 101, 101],
         Decimal.formatInt n, hashString hash, []] := by
-    simp only [formatTree, treePrefix_eq, List.append_assoc, List.singleton_append]
-    rw [splitN, span_no_nl _ _ (by decide)]
+    have e : formatTree ⟨n, hash⟩ =
+        [103, 111, 46, 115, 117, 109, 32, 100, 97, 116, 97, 98, 97, 115, 101, 32, 116, 114, 101, 101] ++
+          10 :: (Decimal.formatInt n ++ 10 :: (hashString hash ++ 10 :: [])) := by
+      simp [formatTree, treePrefix_eq]
+    rw [e]
+    have hnl0 : (10 : UInt8) ∉ ([103, 111, 46, 115, 117, 109, 32, 100, 97, 116, 97, 98, 97, 115,
+        101, 32, 116, 114, 101, 101] : Bytes) := by decide
+    rw [splitN, span_no_nl _ _ hnl0]
     simp only
     rw [splitN, span_no_nl _ _ hnl1]
     simp only
@@ -348,9 +355,11 @@ theorem parseRecord_formatRecord (id : Int) (text rest msg : Bytes)
     have hpi := Decimal.parseInt64_formatInt id h1 h2
     have hsb := splitBlank_noDbl pre rest hnd
     unfold parseRecord
-    simp only [List.append_assoc, List.singleton_append, List.cons_append]
+    simp only [List.append_assoc, List.cons_append, List.nil_append]
     rw [span_no_nl _ _ hnl]
-    simp only [hpi, hsb, hv]
+    simp only [hpi]
+    rw [hsb]
+    simp only [hv]
     simp
 
 end ModVerif.TlogNote
